@@ -301,8 +301,10 @@ func c17GenCase(rt *rapid.T, kind string, wantTrue bool) c17Case {
 			return c17Case{comp, ops, wantTrue, cls}
 		}
 	case "exp":
-		bitlen := uint(rapid.IntRange(3, 6).Draw(rt, "bitlen"))
-		n := int64(rapid.IntRange(3, 500).Draw(rt, "n"))
+		// the structure's bitlen bounds base, exponent, modulus and all intermediate powers alike (the
+		// callers pass the bit length of the modulus): operands are drawn below 2^bitlen
+		bitlen := uint(rapid.IntRange(3, 9).Draw(rt, "bitlen"))
+		n := int64(rapid.IntRange(3, 1<<bitlen-1).Draw(rt, "n"))
 		a := int64(rapid.IntRange(1, int(n)-1).Draw(rt, "a"))
 		e := int64(rapid.IntRange(0, 1<<bitlen-1).Draw(rt, "e"))
 		r := new(gobig.Int).Exp(gobig.NewInt(a), gobig.NewInt(e), gobig.NewInt(n)).Int64()
